@@ -25,7 +25,7 @@ CHECKS = {
         note="faults are Exception subclasses; corpus is finite (5 scenarios, 7 hook kinds, all k; pairs sampled); F13 known finding for one pair shape",
         ref="3.1, 4 C05"),
     "C03": dict(
-        technique="TLA+ chain space with the built-in unwrap rules (Chains.tla), TLC enumeration; every chain built for real and compared with spec, throw() path and line numbers; extraction traces validated against ExtractIterTrace",
+        technique="TLA+ chain space with the built-in unwrap rules (Chains.tla), TLC enumeration; every chain built for real and compared with spec, throw() path and line numbers; extraction traces validated against ExtractIterTrace; Backport.tla: the rows of glue_async_generator (async_generator backport: hidden step frames, pruned yield_, ANextIter / coroutine-wrapper unwrapping) over chains of coroutines, native and backport async generators, replayed on 3.12",
         text="all typed chains up to 3 (thorough 4) links over coroutine / generator-based coroutine / generator / async generator (anext, asend, async for, athrow, aclose) / __await__ adapters x terminators are enumerated by TLC, which also checks that the glue rule table yields the throw path; each is replayed on 3.9-3.12 and the H1 trace of each real extraction must be a behaviour of ExtractIter",
         note="chain length bound; links share four code objects (frames are distinct objects); handlers are added to every link so tracebacks are complete on 3.9-3.11",
         ref="3.7, 4 C03"),
@@ -37,10 +37,10 @@ CHECKS = {
     "C02": dict(
         technique="WithLang.tla behaviours executed without suspension; probes at every statement, inside every enter/exit method and one call below compare extract_since(program frame) with the spec state of that event; 4 carriers x 3.9-3.12",
         text="every probe site of every path of every program is compared with the specification's observation for that instant",
-        note="as C01; quick tier replays every second behaviour",
+        note="as C01; quick tier replays every second behaviour; managers in rotation: Python classes, aliased methods, generator-based, ExitStack, C-implemented (io.StringIO subclass calling back into Python), re-entrant (one object, two open blocks); deep family with 17-18 managers open in one frame",
         ref="3.6, 4 C02"),
     "C06": dict(
-        technique="WithLang.tla + Observe stuttering step: observed runs (all / seeded subsets of suspension points, 1-3 repetitions) must still follow the TLC behaviour event by event and equal the un-observed transcript; harness measures collectability",
+        technique="WithLang.tla + Observe stuttering step: observed runs (all / seeded subsets of suspension points, 1-3 repetitions) must still follow the TLC behaviour event by event and equal the un-observed transcript; harness measures collectability; differential leg under Trio: enumerated cancel-scope programs (deadline none / ahead / passed-unnoticed / cancelled, shield, observer position) run observed and un-observed under a virtual clock",
         text="perturbation would make the recorded history diverge from the spec's behaviour; equality of repeated extractions and weakref death of all managers after dropping the stacks are measured on each behaviour",
         note="refcount / collectability / no-crash clauses are measurements on explored behaviours, not model-level facts (DESIGN.md section 6); quick tier replays every fifth behaviour",
         ref="3.6, 4 C06"),
@@ -65,7 +65,7 @@ CHECKS = {
         note="as C18",
         ref="3.9, 4 C19"),
     "C20": dict(
-        technique="WithLang.tla behaviours observed in referents mode; the ObsReferents relaxation (ordered super-sequence, extras only entering/exiting manager, is_exiting iff exit in progress) decided per observation on 3.9-3.12",
+        technique="WithLang.tla behaviours observed in referents mode; the ObsReferents relaxation (ordered super-sequence, extras only entering/exiting manager, is_exiting iff exit in progress) decided per observation on 3.9-3.12; Trickery.tla: the mode switch at the grain of the code (lock-free check, lock acquisition, re-check + self-test under the lock), every history of 5 (thorough 7) steps of two threads replayed on real threads held at the lock by a gate; the design without the re-check must be rejected by TLC",
         text="same behaviours as C01 with set_trickery_enabled(False); the relaxed acceptance rule is the property's own statement",
         note="as C01",
         ref="3.6, 3.10, 4 C20"),
@@ -96,12 +96,12 @@ CHECKS = {
         ref="3.3, 4 C13"),
     "C14": dict(
         technique="TLA+ spec of Trio task-tree evolution (TaskTree.tla; the state is the expected extraction), TLC exhaustive under VIEW + simulated evolutions replayed by command-interpreting Trio tasks; extract(root, recurse_child_tasks=True) compared with the spec tree at every second step; FromThread.tla (foreign threads calling from_thread.run with a token: queued / serving / returned / called again, Trio thread possibly stuck in synchronous code) replayed with real threads",
-        text="open-nursery (four source forms of the body), start-child, leave-body (blocks in __aexit__ while children live), child-finishes over <= 6 tasks and nesting <= 3; nurseries by identity in nesting order, children by root identity, is_exiting, no error / warning; spec tree first checked against Trio's child_nurseries / child_tasks; to_thread / from_thread ping-pong depth 0..2, outside and inside; tasks may install greenback portals (expected tree unchanged); extract(foreign thread) = its own frames (identity with sys._current_frames) plus, only while its call is served, the serving task's frames afn t(d) s(d) .. t(0)",
+        text="open-nursery (four source forms of the body), start-child, leave-body (blocks in __aexit__ while children live), child-finishes over <= 6 tasks and nesting <= 3; nurseries by identity in nesting order, children by root identity, is_exiting, no error / warning; spec tree first checked against Trio's child_nurseries / child_tasks; to_thread / from_thread ping-pong depth 0..2, outside and inside; tasks may install greenback portals (expected tree unchanged); extract(foreign thread) = its own frames (identity with sys._current_frames) plus, only while its call is served, the serving task's frames afn t(d) s(d) .. t(0); children started with await nursery.start(fn) (StartPending / Started: the child lives in the nursery Trio opens inside start() until it calls started())",
         note="3.12 only; one trio.run per behaviour; F18 (serving task not found while it handles a re-entrant call) was found by this check and repaired in /repo (3993639)",
         ref="3.7, 4 C14"),
     "C15": dict(
         technique="TLA+ spec of greenlet forests (Greenlets.tla: parent assignments, start/call/return/finish, observers), TLC exhaustive under VIEW + simulated behaviours replayed with command-interpreting greenlet bodies; greenback bridges Bridge(d) replayed under Trio; Portal.tla (a task's logical call stack over await / call / await_ / with_portal_run / with_portal_run_sync / ensure_portal edges -> the physical arrangement greenback makes of it -> what the traversal reaches given the registered hooks), every behaviour of 4 actions + simulated ones of 12 replayed in a real Trio task",
-        text="for every reachable forest state extract(target) is called by the observer the behaviour names (main, the target itself, a child, an unrelated greenlet) and must return the target's own segment (entry .. switch point), nothing for unstarted/dead; a greenlet running in another thread must give an error; greenback alternation depth 0..3 from outside and inside the task; for portal behaviours each real frame list (inside and outside observation after every action) is compared frame by frame with the specification's Walk: class of every frame incl. greenback / outcome internals, user frame index, hide flags, contexts",
+        text="for every reachable forest state extract(target) is called by the observer the behaviour names (main, the target itself, a child, an unrelated greenlet) and must return the target's own segment (entry .. switch point), nothing for unstarted/dead; a greenlet running in another thread must give an error; greenback alternation depth 0..3 from outside and inside the task; for portal behaviours each real frame list (inside and outside observation after every action) is compared frame by frame with the specification's Walk: class of every frame incl. greenback / outcome internals, user frame index, hide flags, contexts; the same bridges under asyncio, last resumed by a value and by a thrown CancelledError (outcome.Error.send on the stack)",
         note="3.12 only; F8 (observer descends from the target) and F17 (with_portal_run_sync) were found by this check and repaired in /repo (e26936e, 81260ea); PyPy-specific code paths unreachable",
         ref="3.7, 4 C15"),
     "C16": dict(
